@@ -1696,3 +1696,138 @@ Proof.
     by (vm_compute; reflexivity).
   rewrite E in X. cbn [option_map] in X. inversion X. reflexivity.
 Qed.
+
+(* ================================================================================================ *)
+(* round 2: the roundings of the source are idempotent without any side condition                     *)
+(* ================================================================================================ *)
+Theorem rnd_grad_key_idem k : rnd_grad_key (rnd_grad_key k) = rnd_grad_key k.
+Proof. apply qc_row_idem; [apply round_row_canon|apply round_row_idem]. Qed.
+Theorem rnd_rf_key_idem k : rnd_rf_key (rnd_rf_key k) = rnd_rf_key k.
+Proof. apply qc_row_idem; [apply round_row_canon|apply round_row_idem]. Qed.
+Theorem rnd_adc_key_idem k : rnd_adc_key (rnd_adc_key k) = rnd_adc_key k.
+Proof. apply qc_row_idem; [apply round_row_canon|apply round_row_idem]. Qed.
+Theorem rnd_shape_key_idem k : rnd_shape_key (rnd_shape_key k) = rnd_shape_key k.
+Proof. apply qc_row_idem; [apply round_all_canon|apply round_all_idem]. Qed.
+
+(* EventLibrary.remove_duplicates with the digit tuples of the source: a second pass returns the same
+   library and the identity mapping, for every library with unique ids *)
+Definition second_pass_identity (rnd : key -> key) (l : klib) : Prop :=
+  let nl := fst (lib_remove_duplicates key_eqb rnd l) in
+  lib_remove_duplicates key_eqb rnd nl = (nl, (0, 0) :: map (fun p => (fst p, fst p)) (ldata nl)).
+Theorem source_dedup_idempotent (l : klib) : NoDup (akeys (ldata l)) ->
+  second_pass_identity rnd_shape_key l /\ second_pass_identity rnd_grad_key l /\
+  second_pass_identity rnd_rf_key l /\ second_pass_identity rnd_adc_key l.
+Proof.
+  intro N. unfold second_pass_identity. repeat split; apply (dedup_idempotent key key_eqb key_eqb_spec); try exact N.
+  - exact rnd_shape_key_idem.
+  - exact rnd_grad_key_idem.
+  - exact rnd_rf_key_idem.
+  - exact rnd_adc_key_idem.
+Qed.
+
+(* ================================================================================================ *)
+(* 9. under valid references every block decodes (no block fails before, none after)                  *)
+(* ================================================================================================ *)
+(* the shapes get_block cannot do without (waveform of an arbitrary gradient, magnitude and phase of
+   an RF pulse) are present; RefsExist allows 0 there because remove_duplicates itself tolerates it *)
+Definition ShapesPresent (c : core) : Prop :=
+  Forall (fun p : Z * key => lib_type (grad_l c) (fst p) = Some tag_g ->
+                             lib_get (shape_l c) (qz (knth (snd p) 1)) <> None) (ldata (grad_l c)) /\
+  Forall (fun p : Z * key => lib_get (shape_l c) (qz (knth (snd p) 1)) <> None /\
+                             lib_get (shape_l c) (qz (knth (snd p) 2)) <> None) (ldata (rf_l c)).
+(* every block has a stored duration and an extension chain that can be walked (neither is touched
+   by remove_duplicates) *)
+Definition BlocksComplete (c : core) : Prop :=
+  Forall (fun p : Z * list Z =>
+            aget Z.eqb (durs c) (fst p) <> None /\
+            (if 0 <? nth 6 (snd p) 0 then dec_ext c (S (length (ldata (ext_l c)))) (nth 6 (snd p) 0) else Some []) <> None)
+         (blocks c).
+
+Lemma dec_adc_some c id : has (adc_l c) id -> dec_adc c id <> None.
+Proof.
+  intro H. unfold dec_adc. destruct (id <=? 0) eqn:L; [discriminate|].
+  destruct H as [->|H]; [cbn in L; discriminate L|].
+  destruct (lib_get (adc_l c) id); [cbn; discriminate|congruence].
+Qed.
+
+Lemma has_shape_some c z : has (shape_l c) z -> z <> 0 -> exists k, get_shape c z = Some k.
+Proof.
+  intros [->|H] N; [congruence|]. unfold get_shape. destruct (lib_get (shape_l c) z) as [k|]; [exists k; reflexivity|congruence].
+Qed.
+
+Lemma dec_grad_some c id : RefsExist c -> ShapesPresent c -> has (grad_l c) id -> dec_grad c id <> None.
+Proof.
+  intros (Rg & _ & _) (Sg & _) H. rewrite Forall_forall in Rg, Sg.
+  unfold dec_grad. destruct (id <=? 0) eqn:L; [discriminate|].
+  destruct H as [->|H]; [cbn in L; discriminate L|].
+  destruct (lib_get (grad_l c) id) as [d|] eqn:E; [|congruence].
+  pose proof (agetZ_In _ _ _ E) as Hin.
+  destruct (Rg _ Hin) as [T|(T & a & s1 & s2 & rest & Ed & H1 & H2)]; cbn [fst snd] in *; rewrite T; cbn [opt_bind].
+  - change (tag_t =? tag_t) with true. cbv iota. discriminate.
+  - change (tag_g =? tag_t) with false. cbv iota.
+    pose proof (Sg _ Hin T) as S1. cbn [snd] in S1. unfold get_shape.
+    destruct (lib_get (shape_l c) (qz (knth d 1))) as [ws|]; [|congruence]. cbn [opt_bind].
+    subst d. change (knth (a :: s1 :: s2 :: rest) 2) with s2.
+    destruct (qz s2 =? 0) eqn:Z2; [discriminate|]. apply Z.eqb_neq in Z2.
+    destruct (has_shape_some c _ H2 Z2) as (ts & Ets). unfold get_shape in Ets. rewrite Ets. cbn. discriminate.
+Qed.
+
+Lemma dec_rf_some c id : RefsExist c -> ShapesPresent c -> has (rf_l c) id -> dec_rf c id <> None.
+Proof.
+  intros (_ & Rr & _) (_ & Sr) H. rewrite Forall_forall in Rr, Sr.
+  unfold dec_rf. destruct (id <=? 0) eqn:L; [discriminate|].
+  destruct H as [->|H]; [cbn in L; discriminate L|].
+  destruct (lib_get (rf_l c) id) as [d|] eqn:E; [|congruence]. cbn [opt_bind]. cbv zeta.
+  pose proof (agetZ_In _ _ _ E) as Hin.
+  destruct (Rr _ Hin) as (a & s1 & s2 & s3 & rest & Ed & H1 & H2 & H3). cbn [snd] in Ed.
+  destruct (Sr _ Hin) as [S1 S2]. cbn [snd] in S1, S2. unfold get_shape.
+  destruct (lib_get (shape_l c) (qz (knth d 1))) as [mag|]; [|congruence]. cbn [opt_bind].
+  destruct (lib_get (shape_l c) (qz (knth d 2))) as [ph|]; [|congruence]. cbn [opt_bind].
+  subst d. change (knth (a :: s1 :: s2 :: s3 :: rest) 3) with s3.
+  destruct (0 <? qz s3) eqn:Z3; [|discriminate]. apply Z.ltb_lt in Z3.
+  destruct (has_shape_some c _ H3 ltac:(lia)) as (ts & Ets). unfold get_shape in Ets. rewrite Ets. cbn. discriminate.
+Qed.
+
+Theorem refs_decode c i :
+  RefsExist c -> ShapesPresent c -> BlocksComplete c -> In i (akeys (blocks c)) -> decode c i <> None.
+Proof.
+  intros R SP B Hi. pose proof R as (_ & _ & Rb). rewrite Forall_forall in Rb. unfold BlocksComplete in B. rewrite Forall_forall in B.
+  unfold decode. destruct (aget Z.eqb (blocks c) i) as [ev|] eqn:E.
+  2:{ exfalso. apply (aget_None_notin Z.eqb Zeqb_spec) in E. contradiction. }
+  cbn [opt_bind]. pose proof (agetZ_In _ _ _ E) as Hin.
+  destruct (Rb _ Hin) as (H1 & H2 & H3 & H4 & H5). destruct (B _ Hin) as (Bd & Bx). cbn [fst snd] in *.
+  destruct (dec_rf c (nth 1 ev 0)) as [rf|] eqn:E1; [|exfalso; exact (dec_rf_some c _ R SP H1 E1)]. cbn [opt_bind].
+  destruct (dec_grad c (nth 2 ev 0)) as [gx|] eqn:E2; [|exfalso; exact (dec_grad_some c _ R SP H2 E2)]. cbn [opt_bind].
+  destruct (dec_grad c (nth 3 ev 0)) as [gy|] eqn:E3; [|exfalso; exact (dec_grad_some c _ R SP H3 E3)]. cbn [opt_bind].
+  destruct (dec_grad c (nth 4 ev 0)) as [gz|] eqn:E4; [|exfalso; exact (dec_grad_some c _ R SP H4 E4)]. cbn [opt_bind].
+  destruct (dec_adc c (nth 5 ev 0)) as [adc|] eqn:E5; [|exfalso; exact (dec_adc_some c _ H5 E5)]. cbn [opt_bind].
+  destruct (if 0 <? nth 6 ev 0 then dec_ext c (S (length (ldata (ext_l c)))) (nth 6 ev 0) else Some []) as [ext|];
+    [|congruence]. cbn [opt_bind].
+  destruct (aget Z.eqb (durs c) i); [cbn; discriminate|congruence].
+Qed.
+
+(* hence: every block of a valid store decodes before AND after duplicate removal, to the rounded block *)
+Theorem seq_dedup_every_block_decodes c :
+  StoreWf c -> RefsExist c -> ShapesPresent c -> BlocksComplete c ->
+  TagsAgree rnd_shape_key rnd_grad_key rnd_rf_key c ->
+  exists c', seq_dedup c = Some c' /\
+    forall i, In i (akeys (blocks c')) ->
+      exists b, decode c i = Some b /\
+                decode c' i = Some (round_dblock rnd_shape_key rnd_grad_key rnd_rf_key rnd_adc_key c b).
+Proof.
+  intros W R SP B T. destruct (seq_dedup_decodes_rounded c W R T) as (c' & E & _ & _ & K & _ & D).
+  exists c'. split; [exact E|]. intros i Hi. rewrite K in Hi.
+  destruct (decode c i) as [b|] eqn:Eb; [|exfalso; exact (refs_decode c i R SP B Hi Eb)].
+  exists b. split; [reflexivity|apply D; exact Eb].
+Qed.
+
+(* non-vacuity of the two extra hypotheses on the example store *)
+Lemma ex_shapes : ShapesPresent ex_c.
+Proof.
+  unfold ShapesPresent. split; fin_list;
+    fin_forall ltac:(cbn [fst snd]; first [intro T; vm_compute in T; discriminate T
+                                          |intros _; vm_compute; discriminate
+                                          |split; vm_compute; discriminate]).
+Qed.
+Lemma ex_complete : BlocksComplete ex_c.
+Proof. unfold BlocksComplete. fin_list. fin_forall ltac:(cbn [fst snd]; split; vm_compute; discriminate). Qed.
